@@ -426,7 +426,19 @@ impl Property for C16 {
 		} else if src.chance(1, 3) {
 			let (r1, r2) = (gen_rate(&mut src), gen_rate(&mut src));
 			let ibs = src.pick(&[128usize, 64, 16, 256, 100]);
-			let spec = crate::scene::fx::gen_fx(&mut src, ctx, crate::scene::fx::Domain::Documented, r1.min(r2), 0);
+			let mut spec = crate::scene::fx::gen_fx(&mut src, ctx, crate::scene::fx::Domain::Documented, r1.min(r2), 0);
+			// a third of the cases: a delay with one effect of any kind (reverb included) in its
+			// feedback loop - both instances get the same input, so the loop need not be stable
+			if src.chance(1, 3) {
+				let inner_kind = src.pick(&[6usize, 2, 3, 5, 4, 7]);
+				let inner = crate::scene::fx::gen_fx_kind(&mut src, ctx, crate::scene::fx::Domain::Documented, r1.min(r2), 1, inner_kind);
+				spec = crate::scene::fx::FxSpec::Delay {
+					time_s: src.pick(&[0.01f64, 0.002, 0.03]),
+					feedback_db: src.pick(&[-12.0f32, -6.0, -24.0]),
+					mix: 0.5,
+					inner: vec![inner],
+				};
+			}
 			let sig = crate::scene::signal::gen_sig(&mut src, false);
 			ctx.describe(|| format!("silent history {r1} -> {r2} Hz, internal buffer {ibs}, {spec:?}, {sig:?}"));
 			silent_history(&spec, r1, r2, ibs, &sig)?;
